@@ -329,6 +329,7 @@ class NTAG21xSilicon(T2TSilicon):
         self.product = product
         self.authenticated = False
         self.auth_attempts = []
+        self.nak_code = 0x04            # 4 bit NAK answered to a wrong password (products differ: 0h, 1h, 4h, 5h)
 
     def field_off(self):
         T2TSilicon.field_off(self)
@@ -364,7 +365,7 @@ class NTAG21xSilicon(T2TSilicon):
                 return bytes(self.mem[self.cfg * 4 + 12:self.cfg * 4 + 14])
             self.authenticated = False
             self.active = False
-            return b"\x04"
+            return bytes([self.nak_code])
         if c == 0x3C and len(data) == 2:
             self.cmd_log.append(bytes(data))
             return bytes(range(32))
